@@ -59,6 +59,12 @@ impl<'a, T: DDNNFPtr<'a>> IteTable<'a, T> for LruIteTable<T> {
 
 impl<'a, T: DDNNFPtr<'a>> LruIteTable<T> {
     fn new() -> LruIteTable<T> {
+        #[cfg(rsdd_verif)]
+        if let Some(cap) = crate::verif::lru_capacity() {
+            return LruIteTable {
+                table: Lru::new(cap),
+            };
+        }
         LruIteTable {
             table: Lru::new(INITIAL_CAPACITY),
         }
